@@ -381,19 +381,22 @@ class _VersionIndependentUnmarshaller:
         # small tuple - since Python 3.4
         tuplesize = unpack("B", self.fp.read(1))[0]
         ret, i = self.r_ref_reserve(tuple(), save_ref)
+        items = []
         while tuplesize > 0:
-            ret += (self.r_object(bytes_for_s=bytes_for_s),)
+            items.append(self.r_object(bytes_for_s=bytes_for_s))
             tuplesize -= 1
             pass
-        return self.r_ref_insert(ret, i)
+        return self.r_ref_insert(tuple(items), i)
 
     def t_tuple(self, save_ref, bytes_for_s=False):
         tuplesize = unpack("<i", self.fp.read(4))[0]
         ret, i = self.r_ref_reserve(tuple(), save_ref)
+        # collect in a list: `ret += (x,)` copies the tuple each time (quadratic)
+        items = []
         while tuplesize > 0:
-            ret += (self.r_object(bytes_for_s=bytes_for_s),)
+            items.append(self.r_object(bytes_for_s=bytes_for_s))
             tuplesize -= 1
-        return self.r_ref_insert(ret, i)
+        return self.r_ref_insert(tuple(items), i)
 
     def t_list(self, save_ref, bytes_for_s=False):
         # FIXME: check me
@@ -407,18 +410,20 @@ class _VersionIndependentUnmarshaller:
     def t_frozenset(self, save_ref, bytes_for_s=False):
         setsize = unpack("<i", self.fp.read(4))[0]
         ret, i = self.r_ref_reserve(tuple(), save_ref)
+        items = []
         while setsize > 0:
-            ret += (self.r_object(bytes_for_s=bytes_for_s),)
+            items.append(self.r_object(bytes_for_s=bytes_for_s))
             setsize -= 1
-        return self.r_ref_insert(frozenset(ret), i)
+        return self.r_ref_insert(frozenset(items), i)
 
     def t_set(self, save_ref, bytes_for_s=False):
         setsize = unpack("<i", self.fp.read(4))[0]
         ret, i = self.r_ref_reserve(tuple(), save_ref)
+        items = []
         while setsize > 0:
-            ret += (self.r_object(bytes_for_s=bytes_for_s),)
+            items.append(self.r_object(bytes_for_s=bytes_for_s))
             setsize -= 1
-        return self.r_ref_insert(set(ret), i)
+        return self.r_ref_insert(set(items), i)
 
     def t_dict(self, save_ref, bytes_for_s=False):
         ret = self.r_ref(dict(), save_ref)
